@@ -4,6 +4,7 @@ import ast
 from ..cfg import cfg_of
 from ..model import norm, walk_own
 from ..rules_codec import codec_peewee, codec_sqlite
+from ..rules_commit import check_no_rollback
 from ..rules_own import own_rules
 from ..rules_read import pred_memory, pred_peewee, pred_sqlite
 from ..rules_store import ddl_facts, idalloc_memory, is_param_ref
@@ -47,6 +48,8 @@ def check(prog, rep):
     ddl_facts(prog, rep)
     idalloc_memory(prog, rep)
     bucket_insert(prog, rep)
+    # an acknowledged insert stays: nothing rolls the shared open transaction back
+    check_no_rollback(prog, rep)
     # listing without a window returns every stored event: the window predicate is neutral when no edge is given
     # (for every instant a datetime can hold) and is the inclusive intersection when one is
     rep.rule("PRED", "the listing's window predicate is ev.start <= w.end and w.start <= ev.start + ev.dur, each conjunct applied only when its edge is given; an absent edge binds a value that excludes no representable instant")
